@@ -30,6 +30,9 @@ var rejections = []rejection{
 	{"agency.txt", "blank-agency_name", map[string]string{"agency_name": ""}, 1},
 	{"agency.txt", "blank-agency_url", map[string]string{"agency_url": ""}, 1},
 	{"agency.txt", "blank-agency_timezone", map[string]string{"agency_timezone": ""}, 1},
+	// a rejected agency row naming another (loadable) zone: it must not decide the zone of the dates
+	{"agency.txt", "blank-agency_name-with-another-timezone", map[string]string{"agency_name": "", "agency_timezone": "Asia/Tokyo"}, 1},
+	{"agency.txt", "blank-agency_url-with-another-timezone", map[string]string{"agency_url": "", "agency_timezone": "Pacific/Auckland"}, 1},
 	{"routes.txt", "blank-route_id", map[string]string{"route_id": ""}, 1},
 	{"routes.txt", "blank-route_type", map[string]string{"route_type": ""}, 1},
 	{"routes.txt", "unknown-agency_id", map[string]string{"agency_id": "NOSUCH"}, 1},
@@ -107,7 +110,7 @@ type insertion struct {
 	row []string
 }
 
-// spliceRejected inserts a rejected row (a copy of a valid row with fresh text cells, a fresh
+// spliceRejected inserts a rejected row (a copy of a valid row in which every non-reference cell has a valid value of its own (fresh text, another zone, enum value, number, date, time, colour), a fresh
 // id where the file has one, and the offending cells) at position pos.
 func spliceRejected(m *feedModel, rj rejection, pos int, tag string) []string {
 	t := m.t(rj.file)
@@ -117,8 +120,32 @@ func spliceRejected(m *feedModel, rj rejection, pos int, tag string) []string {
 	}
 	row := append([]string{}, src...)
 	for i, sp := range staticSpecs[rj.file] {
-		if sp.Kind == kText || sp.Kind == kTextReq {
+		// every cell that is not a reference gets a valid value of its own, different from the row
+		// it was copied from: whatever a rejected row leaks into the result then shows
+		switch sp.Kind {
+		case kText, kTextReq:
 			row[i] = "JUNK " + tag
+		case kZone:
+			row[i] = "Asia/Tokyo"
+		case kEnum:
+			for k, e := range sp.Enum {
+				if e == src[i] {
+					row[i] = sp.Enum[(k+1)%len(sp.Enum)]
+					break
+				}
+			}
+		case kDecimalOpt, kDecimalReq:
+			row[i] = "77.75"
+		case kIntOpt, kIntReq:
+			row[i] = "777"
+		case kDate:
+			row[i] = "20301231"
+		case kTimeOfDay:
+			row[i] = "23:59:58"
+		case kColor:
+			row[i] = "ABCDEF"
+		case kBool:
+			row[i] = map[string]string{"0": "1", "1": "0"}[src[i]]
 		}
 	}
 	if idc, ok := idColumnOf[rj.file]; ok {
